@@ -3,7 +3,7 @@ Import ListNotations.
 From BB Require Import BN Brute SpaceFacts TrapFacts PercolateFacts AttractorFacts Diagram Invariants Checks Filter
   Strict PetriNet Control Meta FilterFacts PetriNetFacts TrappistFacts DiagramStruct DiagramSem1 DiagramCache
   DiagramDepth DiagramComplete Termination ControlFacts MetaFacts Candidates StrictFacts MinExpandFacts CandidatesFacts SymbolicTest SymbolicTestFacts Signed ReductionFacts ControlFacts2 Main Blocks BlocksFacts ObsFacts OwnerFacts CandidatesTerm
-  PartialOwner BlockMath BlockComplete ASeeds ASeedsFacts LogChecks SkipRule SkipRuleFacts Names NamesFacts Perm PermFacts SCC SCCFacts SCCStruct ControlFacts3."""
+  PartialOwner BlockMath BlockComplete ASeeds ASeedsFacts LogChecks SkipRule SkipRuleFacts Names NamesFacts Perm PermFacts SCC SCCFacts SCCStruct ControlFacts3 SCCTerm FilterSym."""
 
 EX_NET = """
 (* non-vacuity: two bistable switches; x0'=x1, x1'=x0, x2'=x3, x3'=x2 *)
@@ -53,7 +53,8 @@ clause fails for it: KNOWN FINDING D15, formally D15_refuted (two different expa
            ("aseeds_expansion_one_to_one", "expand_aseeds_one_to_one", "attractor-seed expansion from any diagram reached by plain operations"),
            ("nfvs_log_check_exact", "nfvs_log_ok_b_spec", "the run-time check of the NFVS tape is exact"),
            ("scc_strategy_refuted", "D15_refuted", "KNOWN FINDING D15: in the diagram the source-SCC strategy builds for a 6-variable network two expanded nodes own the same attractor"),
-           ("scc_witness_facts", "d15_facts", None)],
+           ("scc_witness_facts", "d15_facts", None),
+           ("filter_with_symbolic_test_exact", "compute_attractors_sym_exact", "the exactness of the filter holds with the real reachability procedure, for every heuristic tape")],
  examples=EX_NET + """
 Example C01_example_attractors : length (attractors_b ex_sw) = 4.
 Proof. vm_compute. reflexivity. Qed.
@@ -296,7 +297,9 @@ attractors, which makes it agree with the default method.""",
            ("attractor_is_class", "attractor_is_class", "an attractor is the reachable set of any of its states"),
            ("symbolic_test_some", "symbolic_test_some", "the interleaved reachability returns exactly the reachable set ..."),
            ("symbolic_test_none", "symbolic_test_none", "... or None exactly when an avoid state is reachable, for every heuristic tape"),
-           ("symbolic_test_meets_spec", "symbolic_test_meets_spec", None)],
+           ("symbolic_test_meets_spec", "symbolic_test_meets_spec", None),
+           ("filter_with_symbolic_test_agrees", "compute_attractors_sym_agrees", "the filter run with the model of symbolic_attractor_test (any heuristic tape) returns the same seeds in the same order and the same sets"),
+           ("filter_with_symbolic_test_exact", "compute_attractors_sym_exact", "so the sets it returns are exactly the attractors")],
  examples="")
 
 SPEC["C13"] = dict(title="Every operation terminates within bounded work", comment="""
@@ -306,8 +309,9 @@ symbolic_test_terminates bounds the interleaved reachability of symbolic_attract
 fix 2159c02) for every heuristic tape; noforce_can_stall is the formal record of the repaired defect: without
 the fix a tape that always declines makes the loop run forever on a 3-variable network.
 The candidate pipeline's loops (greedy flips, simulation rounds) and the block expansion have explicit bounds too.
-The attractor-seed expansion terminates within 2 * 3^n + 3 iterations (expand_aseeds_terminates).
-PARTIAL: the SCC strategy is bounded by the back-edge budget and the watchdog only.""",
+The attractor-seed expansion terminates within 2 * 3^n + 3 iterations (expand_aseeds_terminates); the source-SCC strategy
+within n + 2 levels at every nesting depth (expand_scc_terminates: levels descend strictly, every nesting level loses a
+free variable), its two assertions can never fire (expand_scc_no_assert) and its edges stay strict (expand_scc_EdgeStrict).""",
  theorems=[("size_bound", "size_bound", None), ("bfs_terminates", "bfs_terminates", None), ("dfs_terminates", "dfs_terminates", None),
            ("target_terminates", "target_terminates", None), ("min_terminates", "min_terminates", None),
            ("step_terminates", "step_terminates", None), ("run_terminates", "run_terminates", None),
@@ -319,7 +323,11 @@ PARTIAL: the SCC strategy is bounded by the back-edge budget and the watchdog on
            ("candidate_pipeline_terminates", "compute_candidates_fuel_irrelevant", None), ("symbolic_test_terminates", "symbolic_test_terminates", None), ("unfixed_loop_can_stall", "noforce_can_stall", "defect D6, formally"),
            ("fixed_loop_answers_on_that_instance", "stall_fixed_answer", None),
            ("aseeds_expansion_terminates", "expand_aseeds_terminates", None),
-           ("sanitize_clash_loop_terminates", "fresh_total", "the rename loop of sanitize_network_names needs at most one more round than there are variables")],
+           ("sanitize_clash_loop_terminates", "fresh_total", "the rename loop of sanitize_network_names needs at most one more round than there are variables"),
+           ("scc_expansion_terminates", "expand_scc_terminates", "source-SCC strategy: fuel n + 2 always suffices"),
+           ("scc_expansion_no_assert", "expand_scc_no_assert", "neither assertion of the strategy can fail"),
+           ("scc_expansion_edge_strict", "expand_scc_EdgeStrict", None),
+           ("symbolic_filter_total", "compute_attractors_sym_total", "the candidate filter with the real reachability procedure never runs out of fuel")],
  examples="")
 
 SPEC["C14"] = dict(title="Cached attractor data is never stale", comment="""
